@@ -170,6 +170,10 @@ def negate(t: ast.AST) -> ast.AST:
     return ast.UnaryOp(op=ast.Not(), operand=t)
 
 
+class _NotText(Exception):
+    pass
+
+
 class Builder:
     """reads one function (and the helpers it appends the result of) into an emission tree"""
 
@@ -224,11 +228,117 @@ class Builder:
         """emission tree of what f returns; None when f is not a text builder of the understood kind"""
         buffers = self._buffers(f.node)
         buf, kind = self._result_buffer(f.node, buffers)
-        if buf is None:
-            return None, ''
         env = dict(arg_env or {})
+        if buf is None:
+            # no single result buffer: the function returns a text *expression* (concatenation, join over a
+            # comprehension, conditional expressions, pieces computed into locals first)
+            try:
+                seq = self._ret_block(f, list(f.node.body), env, buffers, depth)
+            except _NotText:
+                return None, ''
+            return fold(seq), 'joined'
         seq = fold(self._block(f, f.node.body, buf, buffers, env, depth))
         return seq, kind
+
+    def _ret_block(self, f, stmts, env, buffers, depth) -> list:
+        out: list = []
+        for k, st in enumerate(stmts):
+            if isinstance(st, ast.Return):
+                if st.value is None:
+                    raise _NotText()
+                return out + self._text_expr(f, st.value, st, env, buffers, depth)
+            if isinstance(st, ast.Assign) and len(st.targets) == 1 and isinstance(st.targets[0], ast.Name):
+                if st.targets[0].id not in buffers:
+                    env[st.targets[0].id] = self._sub(st.value, env)
+                continue
+            if isinstance(st, ast.If):
+                test = simplify_test(self._sub(st.test, env))
+                body_returns = any(isinstance(x, ast.Return) for s_ in st.body for x in ast.walk(s_))
+                else_returns = any(isinstance(x, ast.Return) for s_ in st.orelse for x in ast.walk(s_))
+                if body_returns or else_returns:
+                    rest = list(stmts[k + 1:])
+                    b = self._ret_block(f, list(st.body) + ([] if _ends_block(st.body) else rest), dict(env), buffers, depth)
+                    o = self._ret_block(f, list(st.orelse) + ([] if _ends_block(st.orelse) else rest), dict(env), buffers,
+                                        depth)
+                    return out + [Guard(test, b, o, f, st)]
+                continue
+            if isinstance(st, (ast.Expr, ast.For, ast.Pass, ast.FunctionDef)):
+                continue       # effects on local buffers are read when the buffer is joined
+            raise _NotText()
+        raise _NotText()
+
+    def _text_expr(self, f, e, node, env, buffers, depth) -> list:
+        """emission nodes of an expression whose value is a piece of text"""
+        e = self._sub(e, env)
+        if isinstance(e, ast.Constant) and isinstance(e.value, str):
+            return [Emit(e, f, node)] if e.value != '' else []
+        if isinstance(e, ast.BinOp) and isinstance(e.op, ast.Add):
+            return self._text_expr(f, e.left, node, {}, buffers, depth) + self._text_expr(f, e.right, node, {}, buffers, depth)
+        if isinstance(e, ast.IfExp):
+            return [Guard(simplify_test(e.test), self._text_expr(f, e.body, node, {}, buffers, depth),
+                          self._text_expr(f, e.orelse, node, {}, buffers, depth), f, node)]
+        if isinstance(e, ast.Call) and isinstance(e.func, ast.Attribute) and e.func.attr == 'join' and \
+                isinstance(e.func.value, ast.Constant) and e.func.value.value == '' and len(e.args) == 1:
+            a = e.args[0]
+            if isinstance(a, ast.Name) and a.id in buffers:
+                return self._block(f, f.node.body, a.id, buffers, {}, depth)
+            return self._elements(f, a, node, buffers, depth)
+        if isinstance(e, ast.Call):
+            h = self._helper(e)
+            if h is not None and depth < self.max_depth:
+                seq, kind = self._inline(h, e, depth)
+                if seq is not None and kind == 'joined':
+                    return seq
+        return [Emit(e, f, node)]
+
+    def _elements(self, f, e, node, buffers, depth) -> list:
+        """emission nodes of joining every element of `e`"""
+        if isinstance(e, (ast.List, ast.Tuple)):
+            out = []
+            for x in e.elts:
+                out += self._text_expr(f, x, node, {}, buffers, depth)
+            return out
+        if isinstance(e, (ast.ListComp, ast.GeneratorExp)):
+            def gen(k, env2):
+                if k == len(e.generators):
+                    return self._text_expr(f, e.elt, node, env2, buffers, depth)
+                g = e.generators[k]
+                it, dflt = strip_defaults(self._sub(g.iter, env2))
+                if isinstance(it, (ast.Tuple, ast.List)) and it.elts and not g.ifs:
+                    # a literal table: written out row by row
+                    out = []
+                    names = [x.id for x in g.target.elts] if isinstance(g.target, ast.Tuple) and all(
+                        isinstance(x, ast.Name) for x in g.target.elts) else \
+                        [g.target.id] if isinstance(g.target, ast.Name) else None
+                    ok = names is not None and all(
+                        (isinstance(r, (ast.Tuple, ast.List)) and len(r.elts) == len(names)) if isinstance(g.target, ast.Tuple)
+                        else True for r in it.elts)
+                    if ok:
+                        for r in it.elts:
+                            env3 = dict(env2)
+                            if isinstance(g.target, ast.Tuple):
+                                env3.update(dict(zip(names, r.elts)))
+                            else:
+                                env3[names[0]] = r
+                            out += gen(k + 1, env3)
+                        return out
+                roles = self._role_names(g.target, text(it))
+                env3 = dict(env2)
+                for nm, r in roles.items():
+                    env3[nm] = ast.Name(id=r, ctx=ast.Load())
+                body = gen(k + 1, env3)
+                for t in reversed(g.ifs):
+                    body = [Guard(self._sub(t, env3), body, [], f, node)]
+                self.uid += 1
+                return [Loop(it, tuple(roles.values()), body, self.uid, f, node, dflt)]
+            return gen(0, {})
+        if isinstance(e, ast.IfExp):
+            return [Guard(simplify_test(e.test), self._elements(f, e.body, node, buffers, depth),
+                          self._elements(f, e.orelse, node, buffers, depth), f, node)]
+        self.uid += 1
+        self.each += 1
+        r = f'each{self.each}'
+        return [Loop(e, (r,), [Emit(ast.Name(id=r, ctx=ast.Load()), f, node)], self.uid, f, node)]
 
     def _sub(self, e, env):
         return _Subst(env).visit(copy.deepcopy(e))
@@ -256,6 +366,10 @@ class Builder:
                 seq, kind = self._inline(h, e, depth)
                 if seq is not None and kind == 'joined':
                     return seq
+        if (isinstance(e, ast.BinOp) and isinstance(e.op, ast.Add)) or (
+                isinstance(e, ast.Call) and isinstance(e.func, ast.Attribute) and e.func.attr == 'join' and
+                isinstance(e.func.value, ast.Constant) and e.func.value.value == ''):
+            return self._text_expr(f, e, node, {}, buffers, depth)
         return [Emit(e, f, node)]
 
     def _inline(self, h, call: ast.Call, depth):
@@ -377,7 +491,9 @@ class Builder:
                 for x in ast.walk(st):
                     if isinstance(x, ast.Name) and isinstance(x.ctx, ast.Store) and x.id in env:
                         env[x.id] = None
-            elif isinstance(st, (ast.Return, ast.Continue, ast.Pass, ast.Break)):
+            elif isinstance(st, ast.Pass):
+                continue
+            elif isinstance(st, (ast.Return, ast.Continue, ast.Break)):
                 if isinstance(st, ast.Break):
                     raise AnalysisError(f'{f.fq}: break in a text-building loop is not read by the emission model')
                 break
